@@ -12,6 +12,7 @@ import os, json, shutil
 from vp_common import *
 import vp_coq, vp_build
 import driver_cases as dc
+import wisdom_cases
 
 USE_MODEL = True
 PHYS_PREFIXES = ("/BunchLength", "/BunchPopulation", "/BunchPosition", "/BunchProfile", "/CSR", "/EnergyAverage",
@@ -80,13 +81,66 @@ def product_configs(ctx):
     return res
 
 
+def observer_configs(ctx, tg, wd, tfile):
+    """observer options x start kinds (seed F3-I: a verbose-only statement of the set-up that re-integrates a grid loaded from a
+    file): start distribution {built-in Gaussian, .h5 last record, .h5 chosen record, .txt particles} x RenormalizeCharge {0, k} x
+    observers {verbose, verbose with another cadence, renamed output with the other extension, tracking, no output steps}.  The
+    .h5 start comes from a first leg that LOSES charge (wide Gaussian, no renormalisation), so that its records are not of unit
+    charge and an initial normalisation that really rescales is visible in every cell; the particle file has particles outside
+    the grid for the same reason.  Returns [(kind, base cfg, variants)] - None when the first leg cannot be made."""
+    rng = ctx.rng
+    n = rng.choice([16, 24])
+    leg = dict(n=n, N=6, T=1, renorm=-1, wake=False, dynrf=False, outstep=2, h5save=1, tracking=None, verbose=False,
+               extra=["--InitialDistZoom", rng.choice(["2.5", "3"])])
+    legf = os.path.join(wd, "leg.h5")
+    r = dc.run_real(tg, leg, legf, want_trace=False)
+    if r["rc"] != 0 or not os.path.exists(legf):
+        ctx.violation("impl-oracle", "first leg for the start-from-file configurations failed", case=dict(cmd=r["cmd"]), observed=r["log"][-400:],
+                      sig={"oracle": "run-failed"})
+        return []
+    txt = os.path.join(wd, "start.txt")
+    with open(txt, "w") as f:
+        for _ in range(rng.randint(150, 400)):
+            f.write("%.6f %.6f\n" % (rng.gauss(0, 2.2), rng.gauss(0, 2.2)))
+    kinds = [("default", []), ("h5last", ["-i", legf]), ("h5step", ["-i", legf, "--InitialDistStep", str(rng.choice([1, 2]))]),
+             ("txt", ["-i", txt])]
+    prov = {"default": {}, "h5last": dict(first_leg=dc.cmdline(leg, "leg.h5")), "h5step": dict(first_leg=dc.cmdline(leg, "leg.h5")),
+            "txt": dict(start_txt=open(txt).read())}
+    res = []
+    for kind, extra in kinds:
+        k = rng.choice([2, 3])
+        for renorm in (0, k):
+            base = dict(n=n, N=rng.choice([4, 5, 6]), T=1, renorm=renorm, wake=rng.random() < 0.5, dynrf=False, outstep=1, h5save=1,
+                        tracking=None, verbose=False, extra=extra, _prov=prov[kind])
+            L = dc.laststep(base)
+            vs = [dict(base, verbose=True, tag="obs_verbose"),
+                  dict(base, verbose=True, outstep=rng.choice([2, 3]), h5save=rng.choice([0, 2]), tag="obs_verbose_cadence"),
+                  dict(base, outstep=rng.choice([0, L]), h5save=rng.choice([0, 1]), tag="obs_nooutput"),
+                  dict(base, outstep=2, tag="obs_renamed", name="other_name_" + kind, ext=".hdf5"),
+                  dict(base, outstep=2, h5save=2, tracking=tfile, verbose=rng.random() < 0.5, tag="obs_tracking")]
+            res.append((kind, base, vs))
+    return res
+
+
+def classify(x, ref, var):
+    """signature of one difference.  One situation gets a clause of its own (known finding initial-ps-record): the phase-space
+    record of step 0 written by the prologue (`if (h5save == 0) append(.., PhaseSpace)`, "if not saved anyways") against the one the
+    loop writes at step 0 AFTER `if (renormalize > 0 && step % renormalize == 0) integrateAndNormalize()`, for a start file"""
+    sig = {"oracle": "cadence", "dataset": x.split(" ")[0]}
+    if sig["dataset"] == "/PhaseSpace/data" and " record of step 0 " in x and (ref["h5save"] == 0) != (var["h5save"] == 0) \
+            and ref["renorm"] > 0 and "-i" in (ref.get("extra") or []):
+        sig["clause"] = "initial-phase-space-vs-step0-renormalisation"
+    return sig
+
+
 def check_pair(ctx, tg, ref, href, var, wd, points, nsetup, dis, key):
     """runs one variant; model correspondence + the C12 oracle against the reference file"""
-    out = os.path.join(wd, (var.get("name") or ("v_" + var["tag"])) + ".h5")
+    out = os.path.join(wd, (var.get("name") or ("v_" + var["tag"])) + var.get("ext", ".h5"))
     r = dc.run_real(tg, var, out)
     h = dc.h5read(tg, out)
     ctx.count("variant:" + var["tag"].split("_")[0])
-    case = dict(reference=dc.cmdline(ref, "ref.h5"), variant=dc.cmdline(var, "var.h5"))
+    short = lambda a: [os.path.basename(x) if x.startswith(wd) else x for x in a]
+    case = dict(reference=short(dc.cmdline(ref, "ref.h5")), variant=short(dc.cmdline(var, "var.h5")), **(ref.get("_prov") or {}))
     mvar = dc.with_oracle(var, r) if USE_MODEL else var
     d = dc.compare_with_model(mvar, r, h, dc.run_model([("m", mvar, None, False, nsetup)])["m"], points, nsetup) if USE_MODEL else []
     for x in d:
@@ -110,8 +164,7 @@ def check_pair(ctx, tg, ref, href, var, wd, points, nsetup, dis, key):
                 dif.append("repeated run: dataset %s differs" % ds)
     for x in dif[:3]:
         ctx.violation("impl-oracle", "runs differing only in how they are observed disagree: " + x, case=case,
-                      observed=x, expected="bit-identical records for equal step numbers",
-                      sig={"oracle": "cadence", "dataset": x.split(" ")[0]})
+                      observed=x, expected="bit-identical records for equal step numbers", sig=classify(x, ref, var))
     nontrivial = ncmp > 0 and href["/PhaseSpace/data"]["rows"][0] != lastA
     ctx.case_done(key + var["tag"], nontrivial)
     ctx.sample(dict(variant=" ".join(dc.cmdline(var, "var.h5")), compared_rows=ncmp, differences=len(dif),
@@ -123,13 +176,22 @@ def run(ctx):
                 "wake on/off, RF modulation on/off); for each, a reference run with a full record at every step and "
                 "variants outstep x SavePhaseSpace, verbose, renamed output, tracking, repeat; plus the systematic product {wake, no wake} x "
                 "RenormalizeCharge {<0, 0, k} x outstep {0, 1, coprime with k, multiple of k} on runs of 3k+2 steps; every record of every "
-                "variant compared bit for bit with the reference record of the same step; non-trivial = at least one "
+                "variant compared bit for bit with the reference record of the same step; observer options (verbose, verbose with another "
+                "cadence, renamed output / other extension, tracking, no output steps) x start distribution {built-in, .h5 last record, .h5 chosen "
+                "record, .txt particles - files that do not hold unit charge} x RenormalizeCharge {0, k}; wisdom: configurations started in an "
+                "EMPTY data directory and run through a history (3 runs, delete / garbage / copy of a wisdom file, directory removed or emptied, "
+                "runs in between): files named in 'Created some wisdom' lines exist, runs 2 and 3 plan nothing and agree bit for bit, every run "
+                "against the extracted wisdom machine over the generated prepareFFT table; non-trivial = at least one "
                 "row compared and the phase space actually changes during the run")
-    coq = vp_coq.full_check("C12", ctx, fams=("driver",))
+    coq = vp_coq.full_check("C12", ctx, fams=("driver", "wisdom"))
+    for x in (dc.observer_report() or []):
+        ctx.notes.append("observer-guarded statement is not pure (obligation of C12_setup_observers_pure / C12_loop_observers_pure): " + x)
+        ctx.log("not pure: " + x)
     tg = ctx.build(harness=("h5cat",), want_binary=True)
     ctx.trusted.add("harness: harness/h5cat.cpp, lib/driver_cases.py, VERIF_POINT hook (inc/VerifHooks.hpp), HDF5/FFTW libraries; "
                     "FFTW wisdom shared through XDG_DATA_HOME")
-    ctx.trusted.add("process-level determinism (FFTW planning, uninitialised memory) is established by the repeated runs only, not by a theorem")
+    ctx.trusted.add("process-level determinism (uninitialised memory; FFTW's planner: that a plan re-created from stored wisdom is the stored plan) is "
+                    "established by the repeated runs only, not by a theorem; the logic that stores and re-uses the wisdom is (C12_wisdom_after_one_run_nothing_is_planned)")
     dis = []
     # decision rule: a broken proof/translation stage does not stop the check - the property oracle still runs on
     # the binary to look for a concrete failing input; only the model comparison is skipped
@@ -184,14 +246,112 @@ def run(ctx):
             check_pair(ctx, tg, base, href, var, wd, points, nsetup, dis, "p%d:" % bi)
             ctx.count("product:%s:renorm%s" % ("wake" if base["wake"] else "nowake", "<0" if base["renorm"] < 0 else ("0" if base["renorm"] == 0 else "k")))
             ntr += 1
+    # observer options x start kinds
+    for bi, (kind, base, vs) in enumerate(observer_configs(ctx, tg, wd, tfile)):
+        refout = os.path.join(wd, "oref%d.h5" % bi)
+        r = dc.run_real(tg, base, refout)
+        href = dc.h5read(tg, refout)
+        nsetup = len([l for l in r["labels"] if l.startswith("setup:")])
+        if href is None or r["rc"] != 0:
+            ctx.violation("impl-oracle", "reference run failed", case=dict(cmd=r["cmd"]), observed=r["log"][-400:],
+                          sig={"oracle": "run-failed"})
+            continue
+        mbase = dc.with_oracle(base, r) if USE_MODEL else base
+        for x in (dc.compare_with_model(mbase, r, href, dc.run_model([("m", mbase, None, False, nsetup)])["m"], points, nsetup) if USE_MODEL else []):
+            dis.append(dict(case=dict(cmd=r["cmd"]), detail=x, sig={"stage": "correspondence", "what": x.split(" ")[0]}))
+        for var in vs:
+            check_pair(ctx, tg, base, href, var, wd, points, nsetup, dis, "o%d:" % bi)
+            ctx.count("observer:%s:renorm%s" % (kind, "0" if base["renorm"] == 0 else "k"))
+            ntr += 1
+    # the wisdom directory as part of the input: data directories Inovesa never used, and what happens to them
+    wisdom_cases.stage(ctx, tg, wd, bool(coq["make_ok"] and coq["extract_ok"] and os.path.exists(vp_coq.model_path("wisdom"))), dis)
     ctx.extra["traces_validated_against_impl"] = ntr
     ctx.extra["correspondence_disagreements"] = len(dis)
     shutil.rmtree(wd, ignore_errors=True)
+    # downgrade rule of DESIGN 2.2 for the wisdom translator: when translate/wisdom2coq.py no longer recognises prepareFFT (a
+    # restructuring outside its narrow idiom) but the machine extracted from the LAST-GOOD table agrees with the binary on every run of
+    # every history of this check, every oracle holds and nothing else is broken, the wisdom clause is shown through tie 2 and the
+    # downgrade is recorded
+    failed = [g for g, st in coq["gen"].items() if st.startswith("failed")]
+    kf = load_known()
+    unlisted = [v for v in ctx.violations if match_known(kf, v) is None]
+    nwis = ctx.dist.get("wisdom:history-run-against-model", 0)
+    if failed == ["Gen_Wisdom"] and coq["make_ok"] and coq["props"]["ok"] and not coq["forbidden"] and coq["extract_ok"] \
+            and not dis and not unlisted and nwis > 0:
+        ctx.extra["translators"]["Gen_Wisdom"] = "downgraded-to-correspondence (" + coq["gen"]["Gen_Wisdom"][:200] + ")"
+        ctx.notes.append("Gen_Wisdom: translator failed; the machine over the last-good prepareFFT table agrees with the binary on all %d runs of the "
+                         "wisdom histories and every oracle holds: downgraded to tie 2" % nwis)
+        coq = dict(coq, ok=True)
     conclude(ctx, coq, dis)
 
 
 def replay(ctx, rp):
+    """re-runs the command lines of `case` (first leg / particle file first when the start comes from a file) in a scratch directory
+    and compares every record of the two results files that carries the same step number"""
+    import subprocess
     tg = ctx.build(harness=("h5cat",), want_binary=True)
-    print(json.dumps(rp.get("case"), indent=1))
-    print("observed:", rp.get("observed"))
-    print("re-run the two command lines of `case` with the binary %s (env from lib/vp_build.xdg_env()) and compare with %s --values" % (tg["inovesa"], tg["h5cat"]))
+    case = rp.get("case") or {}
+    print(json.dumps({k: v for k, v in case.items() if k != "start_txt"}, indent=1))
+    print("recorded:", rp.get("observed"))
+    if (rp.get("sig") or {}).get("oracle") == "wisdom" and case.get("cmd"):
+        # three runs of the command line in a data directory Inovesa never used
+        import shlex, re as _re
+        wd = workdir(ctx)
+        env = dict(vp_build.xdg_env(), XDG_DATA_HOME=os.path.join(wd, "xdg"), HOME=os.path.join(wd, "home"))
+        os.makedirs(env["XDG_DATA_HOME"])
+        os.makedirs(env["HOME"])
+        outs = []
+        for i in (1, 2, 3):
+            out = os.path.join(wd, "run%d.h5" % i)
+            args = [out if x == "run.h5" else x for x in shlex.split(case["cmd"])]
+            r = subprocess.run(["timeout", "120", tg["inovesa"]] + args, env=env, capture_output=True, text=True)
+            created = _re.findall(r"Created some wisdom at (\S+)", r.stdout + r.stderr)
+            wdir = os.path.join(env["XDG_DATA_HOME"], "inovesa", "fftwisdom")
+            files = sorted(os.listdir(wdir)) if os.path.isdir(wdir) else None
+            print("run %d: rc=%d, 'Created some wisdom' lines: %s, wisdom files afterwards: %s" % (i, r.returncode, [os.path.basename(c) for c in created], files))
+            outs.append(out)
+            if i == 1 and [c for c in created if not os.path.isfile(c)]:
+                ctx.violation("impl-oracle", "the first run in a fresh data directory reports created wisdom but the file does not exist afterwards", case=case,
+                              observed=files, sig={"oracle": "wisdom", "clause": "wisdom-file-missing"})
+            if i > 1 and created:
+                ctx.violation("impl-oracle", "run %d in the same data directory plans %d FFT(s) again" % (i, len(created)), case=case,
+                              observed=[os.path.basename(c) for c in created], sig={"oracle": "wisdom", "clause": "replanned-with-stored-wisdom"})
+        d = wisdom_cases.physics_equal(tg, outs[1], outs[2])
+        print("runs 2 and 3:", "bit-identical physics datasets" if not d else d[:5])
+        if d:
+            ctx.violation("impl-oracle", "two runs with identical parameters in the same data directory differ: " + d[0], case=case, observed=d[:5],
+                          sig={"oracle": "wisdom", "clause": "repeat-differs"})
+        shutil.rmtree(wd, ignore_errors=True)
+        return
+    if "reference" not in case or "variant" not in case:
+        return
+    wd = workdir(ctx)
+    env = vp_build.xdg_env()
+    if case.get("start_txt"):
+        with open(os.path.join(wd, "start.txt"), "w") as f:
+            f.write(case["start_txt"])
+    with open(os.path.join(wd, "track.txt"), "w") as f:
+        f.write("0.5 0.25\n-1.0 0.5\n0.0 -0.75\n")
+    for key in ("first_leg", "reference", "variant"):
+        if case.get(key):
+            r = subprocess.run(["timeout", "120", tg["inovesa"]] + [x for x in case[key] if x != "-v"] + (["-v"] if "-v" in case[key] else []),
+                               cwd=wd, env=env, capture_output=True, text=True)
+            print("%s: rc=%d" % (key, r.returncode))
+
+    def cfg_of(a):
+        g = lambda o, d=None: a[a.index(o) + 1] if o in a else d
+        return dict(N=int(g("-N")), T=int(float(g("-T"))), h5save=int(g("--SavePhaseSpace")), renorm=int(g("--RenormalizeCharge")),
+                    extra=["-i"] if "-i" in a else [], tracking=g("--tracking"))
+    ca, cb = cfg_of(case["reference"]), cfg_of(case["variant"])
+    ha, hb = dc.h5read(tg, os.path.join(wd, "ref.h5")), dc.h5read(tg, os.path.join(wd, "var.h5"))
+    if ha is None or hb is None:
+        print("a results file is missing")
+        return
+    skip = {"/Particles/data"} if bool(ca["tracking"]) != bool(cb["tracking"]) else set()
+    dif, ncmp = dc.compare_common(ha, ca, hb, cb, skip=skip)
+    print("%d rows compared, %d differ" % (ncmp, len(dif)))
+    for x in dif[:5]:
+        print("  " + x)
+        ctx.violation("impl-oracle", "runs differing only in how they are observed disagree: " + x, case=case, observed=x,
+                      expected="bit-identical records for equal step numbers", sig=classify(x, ca, cb))
+    shutil.rmtree(wd, ignore_errors=True)
